@@ -48,8 +48,10 @@ Mut(o) ==
   \cup { Obj(o.m \o <<Mem(o.m[i].k, r)>>) : i \in 1..n, r \in {Null, N1, Arr(<<>>)} }
   \* odd op names
   \cup { Obj([o.m EXCEPT ![i].v = x]) : i \in { j \in 1..n : o.m[j].k = kOp }, x \in OddOps }
-  \* extra members are ignored
+  \* extra members are ignored - also a "from" / "value" member on an operation that does not use it, whatever its type
   \cup { Obj(Append(o.m, Mem(<<101,120,116,114,97>>, N1))) }
+  \cup (IF HasM(o, kFrom) THEN {} ELSE { Obj(Append(o.m, Mem(kFrom, r))) : r \in {Null, N1, Arr(<<>>)} })
+  \cup (IF HasM(o, kValue) THEN {} ELSE { Obj(<<Mem(kValue, r)>> \o o.m) : r \in {Null, Obj(<<>>)} })
 
 Good == CHOOSE o \in Base : o.m[1].v = Str(sRemove)
 ElemSet == Base \cup UNION { Mut(o) : o \in Base } \cup { Null, N1, SX, Arr(<<>>), Bool(FALSE) }
